@@ -1110,7 +1110,6 @@ theorem c04_map_result (s : PMM V) (hw : C04.PMMWF s) (p : Param V) (hp : ParamW
           simp [hn]
         · exact List.getElem?_eq_getElem hin
       rw [hc, List.getElem?_zipWith, hmask, List.getElem?_eq_getElem hin, ha]
-      simp
     · rw [if_neg hl] at h2
       split at h2
       · rename_i a hn
@@ -1121,7 +1120,6 @@ theorem c04_map_result (s : PMM V) (hw : C04.PMMWF s) (p : Param V) (hp : ParamW
       · cases h2
   show (List.zipWith (fun row c => row ++ [c]) s.mpn col)[i]? = _
   rw [List.getElem?_zipWith, hrow, hcol]
-  rfl
 
 example : ((C04.Examples.m3.mapParam C04.Examples.b (some [0, 2]) (.one "x")).1.mpn) =
     [[none, some "x"], [some "gamma", none], [some "gamma", some "x"]] := by decide
@@ -1143,13 +1141,6 @@ theorem c04_params_dict_total (s : PSet V) (hs : Coherent s) (q : List String) (
     rw [List.length_map] at this
     rw [this, List.length_append, hs.caches.floatNames, hs.caches.fixedNames, List.length_map, List.length_map]
     have hp := List.length_eq_length_filter_add (fun p : Param V => p.isfixed) (l := s.params)
-    simp only [Bool.not_eq_true] at hp
-    have hfl : (s.params.filter (fun p => !p.isfixed)).length =
-        (s.params.filter (fun p => p.isfixed = false)).length := by
-      congr 1
-      apply List.filter_congr
-      intro p _
-      cases p.isfixed <;> rfl
     omega
   · simp only [PSet.views]
     rw [List.map_snd_zip (by omega)]
